@@ -67,6 +67,17 @@ for line in sys.stdin:
                             n += 1
                         if n == 0:
                             getattr(w, wn)([])
+                    elif mode == "chunks_empty":
+                        # batches of k items with empty batches (list and tuple) in between
+                        it = iter(v)
+                        getattr(w, wn)([])
+                        while True:
+                            ch = list(itertools.islice(it, c.get("k", 2)))
+                            if not ch:
+                                break
+                            getattr(w, wn)(ch)
+                            getattr(w, wn)(())
+                            getattr(w, wn)([])
                     elif mode == "iter":
                         getattr(w, wn)(x for x in v)
                 else:
